@@ -444,19 +444,17 @@ def run_case(case):
 
 # ---------------------------------------------------------------- cases
 def cases(tier, rng):
-    full_len = {'fresh': 2, 'populated': 3} if tier == 'quick' else {'fresh': 3, 'populated': 4}
+    full_len = {'fresh': 3, 'populated': 3} if tier == 'quick' else {'fresh': 3, 'populated': 4}
     for start in ('fresh', 'populated'):
         for n in range(1, full_len[start] + 1):
             for evs in itertools.product(EVENTS, repeat=n):
-                if n == full_len[start] and n >= 3 and tier == 'quick' and evs[-1] == 'tick-long':
-                    continue
                 yield {'start': start, 'events': list(evs)}
     # directed: the suppression scenarios of the statement (outdated vector, then what is heard, then expiry)
     openers = ('older-a', 'older-all', 'self-behind', 'only-unknown', 'incomparable')
     for op in openers:
         for mid in itertools.product(VECTORS + ('pub',), repeat=2):
             yield {'start': 'populated', 'events': [op, mid[0], 'tick-short', mid[1], 'tick-sup']}
-    n_random = 3000 if tier == 'quick' else 120000
+    n_random = 6000 if tier == 'quick' else 120000
     max_len = 5 if tier == 'quick' else 6
     for _ in range(n_random):
         n = rng.randint(4, max_len)
@@ -474,7 +472,7 @@ def run(tier='quick', seed=0, shard=(0, 1)):
                       'entry without seq_no or node id/undecodable/empty/wrong name length), publish, double publish, timer advance short/'
                       'past suppression/past periodic} from a fresh or populated instance: exhaustive up to a length, directed suppression '
                       'scenarios, random longer ones; non-trivial = contains a received vector or a publication; distinct by (start, events)',
-                 bound=('exhaustive length <= 2 (fresh) / <= 3 (populated)' if tier == 'quick' else 'exhaustive length <= 3 (fresh) / <= 4 (populated)')
+                 bound=('exhaustive length <= 3 (fresh and populated)' if tier == 'quick' else 'exhaustive length <= 3 (fresh) / <= 4 (populated)')
                        + '; random histories up to length ' + ('5' if tier == 'quick' else '6') + '; 3 remote nodes; virtual clock, fixed timer jitter',
                  exhaustive=False, nontrivial=nontrivial)
 
